@@ -501,13 +501,13 @@ theorem lG6_liveCfg (s s' : CS) (w w1 : CWl) (hw : s.wl = some w) (hw' : s'.wl =
 
 theorem lG6_nxt_cases (f : FinStep) (hf : lG6_tmCursor f) :
     (lG6_tmCursor (lG6_nxt f) ∨ lG6_nxt f = .resumeWorkload) ∧ lG6_code (lG6_nxt f) ≠ 0 ∧
-      lG6_rank (lG6_nxt f) < lG6_rank f ∧ 10 < lG6_rank (lG6_nxt f) := by
+      lG6_rank (lG6_nxt f) < lG6_rank f ∧ 10 < lG6_rank (lG6_nxt f) ∧ lG6_rank (lG6_nxt f) ≤ 20 := by
   unfold lG6_tmCursor at hf ⊢
   rcases hf with h | h | h | h <;> subst h <;> decide
 
 /-- one fair round from a state of the classes 20 – 23 -/
 theorem lG6_round (s : CS) (k : Nat) (h : liveInv s = true) (hc : cls s = k) (hk : 20 ≤ k ∧ k ≤ 23) :
-    ∃ s', round s = some s' ∧ liveInv s' = true ∧ mu s' < mu s ∧ 12 < mu s' := by
+    ∃ s', round s = some s' ∧ liveInv s' = true ∧ mu s' < mu s ∧ 12 < mu s' ∧ mu s' ≤ 32 := by
   obtain ⟨hfwd, hcfg, _, hbd⟩ := (liveInv_iff s).1 h
   have hbd : atBoundary s = true := by
     rcases hbd with h1 | h1
@@ -554,15 +554,17 @@ theorem lG6_round (s : CS) (k : Nat) (h : liveInv s = true) (hc : cls s = k) (hk
         net := s.net, mem := s.mem } { w with inProgressAnno := false } sub' { b with st := stOf b } :=
     ⟨rfl, hph', hr', hsub', rfl, F.sync, F.init, F.ready, F.part, F.rdy, F.isp⟩
   obtain ⟨sub2, F2, hfs2, hsteps2, hht2, hbd2⟩ := lG6_tail _ _ _ _ F1 rfl henv1
-  obtain ⟨n1, n2, n3, n4⟩ := lG6_nxt_cases sub.finStep hf
+  obtain ⟨n1, n2, n3, n4, n5⟩ := lG6_nxt_cases sub.finStep hf
   have hfin2 : sub2.finStep = lG6_nxt sub.finStep := hfs2.trans hfs'
-  rw [← hfin2] at n1 n2 n3 n4
-  refine ⟨_, hround, (liveInv_iff _).2 ⟨hfin, ?_, ?_, Or.inr hbd2⟩, ?_, ?_⟩
+  rw [← hfin2] at n1 n2 n3 n4 n5
+  refine ⟨_, hround, (liveInv_iff _).2 ⟨hfin, ?_, ?_, Or.inr hbd2⟩, ?_, ?_, ?_⟩
   · rw [lG6_liveCfg s _ w _ F.hw F2.hw rfl rfl rfl (hsteps2.trans hsteps') (hht2.trans hht')]
     exact hcfg
   · rw [lG6_cls_of _ _ _ _ F2 n1]
     exact n2
   · rw [lG6_mu_of _ _ _ _ F2 n1, lG6_mu_of s w sub b F (Or.inl hf)]
+    omega
+  · rw [lG6_mu_of _ _ _ _ F2 n1]
     omega
   · rw [lG6_mu_of _ _ _ _ F2 n1]
     omega
@@ -577,29 +579,29 @@ theorem lG6_doneInv_of (s : CS) (h : 12 < mu s) : doneInv s = true := by
 theorem lG6_done (s : CS) (k : Nat) (h : liveInv s = true) (hc : cls s = k) (hk : 20 ≤ k ∧ k ≤ 23) :
     ∀ s', round s = some s' → doneInv s' = true := by
   intro s' hs'
-  obtain ⟨s2, h1, _, _, h4⟩ := lG6_round s k h hc hk
+  obtain ⟨s2, h1, _, _, h4, _⟩ := lG6_round s k h hc hk
   rw [h1] at hs'
   cases hs'
   exact lG6_doneInv_of _ h4
 
 theorem round_cls_20 (s : CS) (h : liveInv s = true) (hc : cls s = 20) :
     ∃ s', round s = some s' ∧ liveInv s' = true ∧ mu s' < mu s := by
-  obtain ⟨s', h1, h2, h3, _⟩ := lG6_round s 20 h hc (by omega)
+  obtain ⟨s', h1, h2, h3, _, _⟩ := lG6_round s 20 h hc (by omega)
   exact ⟨s', h1, h2, h3⟩
 
 theorem round_cls_21 (s : CS) (h : liveInv s = true) (hc : cls s = 21) :
     ∃ s', round s = some s' ∧ liveInv s' = true ∧ mu s' < mu s := by
-  obtain ⟨s', h1, h2, h3, _⟩ := lG6_round s 21 h hc (by omega)
+  obtain ⟨s', h1, h2, h3, _, _⟩ := lG6_round s 21 h hc (by omega)
   exact ⟨s', h1, h2, h3⟩
 
 theorem round_cls_22 (s : CS) (h : liveInv s = true) (hc : cls s = 22) :
     ∃ s', round s = some s' ∧ liveInv s' = true ∧ mu s' < mu s := by
-  obtain ⟨s', h1, h2, h3, _⟩ := lG6_round s 22 h hc (by omega)
+  obtain ⟨s', h1, h2, h3, _, _⟩ := lG6_round s 22 h hc (by omega)
   exact ⟨s', h1, h2, h3⟩
 
 theorem round_cls_23 (s : CS) (h : liveInv s = true) (hc : cls s = 23) :
     ∃ s', round s = some s' ∧ liveInv s' = true ∧ mu s' < mu s := by
-  obtain ⟨s', h1, h2, h3, _⟩ := lG6_round s 23 h hc (by omega)
+  obtain ⟨s', h1, h2, h3, _, _⟩ := lG6_round s 23 h hc (by omega)
   exact ⟨s', h1, h2, h3⟩
 
 theorem done_cls_20 (s : CS) (h : liveInv s = true) (hd : doneInv s = true) (hc : cls s = 20) :
@@ -621,5 +623,39 @@ theorem done_cls_23 (s : CS) (h : liveInv s = true) (hd : doneInv s = true) (hc 
     ∀ s', round s = some s' → doneInv s' = true := by
   have _ := hd
   exact lG6_done s 23 h hc (by omega)
+
+theorem lG6_polInv_of (s : CS) (h : mu s ≤ 32) : polInv s = true := by
+  unfold polInv
+  split
+  · simp [h]
+  · rfl
+
+theorem lG6_pol (s : CS) (k : Nat) (h : liveInv s = true) (hc : cls s = k) (hk : 20 ≤ k ∧ k ≤ 23) :
+    ∀ s', round s = some s' → polInv s' = true := by
+  intro s' hs'
+  obtain ⟨s2, h1, _, _, _, h5⟩ := lG6_round s k h hc hk
+  rw [h1] at hs'
+  cases hs'
+  exact lG6_polInv_of _ h5
+
+theorem pol_cls_20 (s : CS) (h : liveInv s = true) (hp : polInv s = true) (hc : cls s = 20) :
+    ∀ s', round s = some s' → polInv s' = true := by
+  have _ := hp
+  exact lG6_pol s 20 h hc (by omega)
+
+theorem pol_cls_21 (s : CS) (h : liveInv s = true) (hp : polInv s = true) (hc : cls s = 21) :
+    ∀ s', round s = some s' → polInv s' = true := by
+  have _ := hp
+  exact lG6_pol s 21 h hc (by omega)
+
+theorem pol_cls_22 (s : CS) (h : liveInv s = true) (hp : polInv s = true) (hc : cls s = 22) :
+    ∀ s', round s = some s' → polInv s' = true := by
+  have _ := hp
+  exact lG6_pol s 22 h hc (by omega)
+
+theorem pol_cls_23 (s : CS) (h : liveInv s = true) (hp : polInv s = true) (hc : cls s = 23) :
+    ∀ s', round s = some s' → polInv s' = true := by
+  have _ := hp
+  exact lG6_pol s 23 h hc (by omega)
 
 end RV.Lemmas.ClosedLoop
